@@ -266,8 +266,13 @@ func (c *Ctx) callMods(fn *ssa.Function, cc *ssa.CallCommon, m *ModSet) {
 		if mc, ok := cc.Value.(*ssa.MakeClosure); ok {
 			m.union(c.modsOf(mc.Fn.(*ssa.Function)))
 		}
+		fname := fullName(callee)
+		readOnly := strings.HasPrefix(fname, "sync/atomic::Load")
 		for _, a := range cc.Args {
 			c.funcArgMods(a, m)
+			if readOnly {
+				continue
+			}
 			// an interior address handed to the callee (&x.f, &s[i]): its writes
 			// land in the container
 			switch a.(type) {
